@@ -489,3 +489,61 @@ M('C03', 'plane-distance-drops-offset', 'src/geom3/plane3.rs', "        self.nor
 M('C03', 'neutral-plane-distance-temp', 'src/geom3/plane3.rs', "        self.normal.dot(&point.coords) - self.d", "        let proj = self.normal.dot(&point.coords);\n        proj - self.d", '', kind='neutral')
 M('C07', 'to_wpr-neg-lock-sign', ROTF, "        let rx = -(m[(1, 0)].atan2(m[(1, 1)]));", "        let rx = m[(1, 0)].atan2(m[(1, 1)]);", 'to_wpr:branches')
 M('C07', 'point_point_jacobian-d-for-rd', 'src/geom3/align3/jacobian.rs', "        result.a = n.dot(&(params.rotations().rd.y * from_rc).coords);", "        result.a = n.dot(&(params.rotations().d.y * from_rc).coords);", 'point_point_jacobian:rows')
+IVF = 'src/common/interval.rs'
+_IV_OLD = """        if self.overlaps(other) {
+            Some(Interval::new(
+                self.min.max(other.min),
+                self.max.min(other.max),
+            ))
+        } else {
+            None
+        }"""
+M('C18', 'intersection-strict-bounds', IVF, _IV_OLD, """        let min = self.min.max(other.min);
+        let max = self.max.min(other.max);
+        if min < max {
+            Some(Interval::new_unchecked(min, max))
+        } else {
+            None
+        }""", 'Interval::intersection')
+M('C18', 'neutral-intersection-closed-bounds', IVF, _IV_OLD, """        let min = self.min.max(other.min);
+        let max = self.max.min(other.max);
+        if min <= max {
+            Some(Interval::new_unchecked(min, max))
+        } else {
+            None
+        }""", '', kind='neutral')
+HULLF = 'src/geom2/hull.rs'
+M('C15', 'hull-diameter-early-break', HULLF, """            if d > max_dist {
+                max_dist = d;
+                max_pair = (i, j);
+            }
+        }""", """            if d > max_dist {
+                max_dist = d;
+                max_pair = (i, j);
+            } else if d < 0.5 * max_dist {
+                break;
+            }
+        }""", 'farthest_pair_indices:exhaustive')
+M('C15', 'hull-diameter-inner-range', HULLF, "        for j in i + 1..hull.points().len() {", "        for j in i + 2..hull.points().len() {", 'farthest_pair_indices:running-maximum')
+M('C15', 'hull-diameter-pair-not-updated', HULLF, "                max_pair = (i, j);", "                max_pair = (j, j);", 'farthest_pair_indices:running-maximum')
+M('C15', 'neutral-hull-diameter-temps', HULLF, "            let d = dist(&hull.points()[i], &hull.points()[j]);", "            let pi = &hull.points()[i];\n            let pj = &hull.points()[j];\n            let d = dist(pi, pj);", '', kind='neutral')
+M('C11', 'angle-interval-wrap-extent', 'src/common/angles.rs', "                angle: angle.min(2.0 * PI),", "                angle: angle_to_2pi(angle),", 'AngleInterval::new:shape')
+EDF = 'src/geom3/mesh/edges.rs'
+M('C20', 'invert-absolute-threshold', CFM, "    if det == 0.0 {", "    if det.abs() < 1.0e-6 {", 'invert_2x2:singular')
+M('C20', 'invert-adjugate-sign', CFM, "    result[(0, 1)] = -m[(0, 1)] * inv_det;", "    result[(0, 1)] = m[(0, 1)] * inv_det;", 'invert_2x2:adjugate')
+M('C20', 'invert-adjugate-transposed', CFM, "    result[(0, 1)] = -m[(0, 1)] * inv_det;\n    result[(1, 0)] = -m[(1, 0)] * inv_det;", "    result[(0, 1)] = -m[(1, 0)] * inv_det;\n    result[(1, 0)] = -m[(0, 1)] * inv_det;", 'invert_2x2:adjugate')
+M('C20', 'neutral-invert-divide', CFM, "    result[(0, 0)] = m[(1, 1)] * inv_det;", "    result[(0, 0)] = m[(1, 1)] / det;", '', kind='neutral')
+_EE_OLD = """        if unique_edge_count[i1].1 == 1 {
+            boundary_map.insert(face_chunk[1][0], face_chunk[1][1]);
+        }
+        if unique_edge_count[i2].1 == 1 {"""
+_EE_NEW = """        if unique_edge_count[i1].1 == 1 {
+            boundary_map.insert(face_chunk[1][0], face_chunk[1][1]);
+        } else if unique_edge_count[i2].1 == 1 {"""
+M('C20', 'ear-triangle-else-if', EDF, _EE_OLD, _EE_NEW, 'identify_edges:boundary-entry')
+M('C12', 'ear-triangle-else-if', EDF, _EE_OLD, _EE_NEW, 'identify_edges:boundary-entry')
+M('C20', 'uv-lookup-not-solid', UVM, "            .project_local_point_and_get_location(point, true);", "            .project_local_point_and_get_location(point, false);", 'UvMapping::triangle:solid')
+M('C20', 'interior-bary-swapped-weights', UVM, "    Some([1.0 - w1 - w2, w1, w2])", "    Some([1.0 - w1 - w2, w2, w1])", 'interior_barycentric')
+M('C20', 'interior-bary-wrong-numerator', UVM, "    let w2 = (v0.x * v2.y - v2.x * v0.y) / det;", "    let w2 = (v0.x * v2.y - v2.y * v0.x) / det;", 'interior_barycentric')
+M('C20', 'interior-bary-other-triangle', UVM, "                let tri = self.tri_map.triangle(t_id);", "                let tri = self.tri_map.triangle(0);", 'UvMapping::triangle')
+M('C20', 'neutral-interior-bary-w0-order', UVM, "    Some([1.0 - w1 - w2, w1, w2])", "    let w0 = 1.0 - (w1 + w2);\n    Some([w0, w1, w2])", '', kind='neutral')
